@@ -355,7 +355,8 @@ func check(c *core.Ctx, k kase) {
 
 func run(c *core.Ctx) {
 	r := c.Rng("cases")
-	names := []string{"x", "ab", "data", "$", "$$", "_a", "a1", "A_b$9", "my_var", "1a", "", " a", "a ", "a b", "a-b", "a.b", "a;alert(1)//", "é", "aé", "a\n", "var", "a=1;b", "ａ", "a‍", "K", "x\x00"}
+	names := []string{"x", "ab", "data", "$", "$$", "_a", "a1", "A_b$9", "my_var", "1a", "", " a", "a ", "a b", "a-b", "a.b", "a;alert(1)//", "\u00e9", "a\u00e9", "a\n", "var", "a=1;b", "\uff41", "a\u200d", "\u212a", "x\x00",
+		"\u212aey", "\u017ftate", "a\u212a", "x\u017f", "\u212a\u212a", "ab\u0131", "d\u0130ta", "a\ufb01", "a\u0300", "x\u2028y", "$\u00e9", "_\u03a9"}
 	scripts := []string{"", "f(x);", "alert(1)", "// c\nrun()", "\"</script>\"", ";\n", "var y = 2;\n"}
 	n := c.N(600000, 6000000) / c.NShards
 	for i := 0; i < n; i++ {
@@ -364,7 +365,7 @@ func run(c *core.Ctx) {
 			name = "ab" // most cases exercise the data path
 		}
 		if r.Intn(10) == 0 {
-			name = gen.Soup(r, []string{"a", "Z", "0", "_", "$", " ", "-", "é", "\n"}, r.Intn(5))
+			name = gen.Soup(r, []string{"a", "Z", "0", "_", "$", " ", "-", "\u00e9", "\n", "\u212a", "\u017f", "k", "s", "\u0131", "\uff41"}, r.Intn(5))
 		}
 		k := kase{Name: util.Q(name), Script: util.Q(scripts[r.Intn(len(scripts))]), Data: genSpec(r, 0)}
 		c.Journal(util.JSON(k))
